@@ -18,6 +18,8 @@ import (
 	"github.com/go-i2p/common/lease_set2"
 	"github.com/go-i2p/common/meta_leaseset"
 	"github.com/go-i2p/common/offline_signature"
+	"github.com/go-i2p/common/router_address"
+	"github.com/go-i2p/common/router_info"
 
 	"i2psim.local/sim/engine"
 	"i2psim.local/sim/refmodel"
@@ -225,6 +227,23 @@ func (World) Generate(r *engine.RNG, tier string) *engine.Script {
 				}
 			}
 			expiries = append(expiries, int64(sh.U[r.Intn(sh.N)]))
+		case 15:
+			// millisecond dates carried by other structures, read back through
+			// their accessors: RouterInfo.Published, RouterAddress.Expiration, ReadDate
+			ms := pickMillis(r)
+			switch r.Intn(3) {
+			case 0:
+				op.Struct, sh.Kind = "rinfo_parse", "rinfo"
+				edIdent(sh, r)
+				sh.U = []uint64{ms, 0}
+				sh.Sub = []engine.Shape{{Kind: "raddr", U: []uint64{5, pickMillis(r)}, Str: "NTCP2"}}
+			case 1:
+				op.Struct, sh.Kind = "raddr_parse", "raddr"
+				sh.U, sh.Str = []uint64{7, ms}, "SSU2"
+			default:
+				op.Struct, sh.Kind = "date_parse", "date"
+				sh.U = []uint64{ms}
+			}
 		default:
 			op.Struct = r.PickStr("date_from_time", "date_from_millis", "date_from_unix")
 			ms := pickMillis(r)
@@ -605,6 +624,51 @@ func buildEntries(o *engine.Outcome, op *engine.Op) []*entry {
 			}
 		}
 		return es
+	case "rinfo_parse", "raddr_parse", "date_parse":
+		f := parseFrame(o, op.Shape)
+		if f == nil {
+			return nil
+		}
+		dateEntry := func(kind string, d data.Date, want uint64) *entry {
+			return &entry{kind: kind, exact: func() string {
+				if !dateIs(d, want) {
+					return fmt.Sprintf("bytes %x != %d ms", d[:], want)
+				}
+				if !msIs(d.Time(), int64(want)) {
+					return fmt.Sprintf("Time %v != %d ms", d.Time(), want)
+				}
+				return ""
+			}}
+		}
+		switch op.Struct {
+		case "rinfo_parse":
+			ri, _, err := router_info.ReadRouterInfo(f.Bytes)
+			if err != nil || ri.Published() == nil {
+				o.Probe("reference_frame_rejected:rinfo")
+				return nil
+			}
+			es := []*entry{dateEntry("RouterInfo/Published", *ri.Published(), op.Shape.U[0])}
+			for i, a := range ri.RouterAddresses() {
+				if a != nil && i < len(op.Shape.Sub) {
+					es = append(es, dateEntry("RouterAddress/in-RouterInfo/Expiration", a.Expiration(), op.Shape.Sub[i].U[1]))
+				}
+			}
+			return es
+		case "raddr_parse":
+			ra, _, err := router_address.ReadRouterAddress(f.Bytes)
+			if err != nil {
+				o.Probe("reference_frame_rejected:raddr")
+				return nil
+			}
+			return []*entry{dateEntry("RouterAddress/Expiration", ra.Expiration(), op.Shape.U[1])}
+		default:
+			d, _, err := data.ReadDate(f.Bytes)
+			if err != nil {
+				o.Probe("reference_frame_rejected:date")
+				return nil
+			}
+			return []*entry{dateEntry("Date/parsed", d, op.Shape.U[0])}
+		}
 	case "date_from_time", "date_from_millis", "date_from_unix":
 		sec, ns, ms := op.N[0], op.N[1], uint64(op.N[2])
 		var d *data.Date
